@@ -572,6 +572,12 @@ func (s *Session) start() error {
 				return
 			}
 
+			if !s.IsLogged() {
+				// The logon has ended (a logout is in progress or complete):
+				// there is no peer to probe until the next logon.
+				continue
+			}
+
 			testRequest := s.MessageBuilders.TestRequestBuilder.Build()
 
 			testReqCounter++
